@@ -116,19 +116,30 @@ Field(v, f) ==      \* this.f ; "missing" when absent
   THEN r.cs[CHOOSE i \in 1..Len(r.cs) : r.cs[i].n = f].v
   ELSE Val("missing", "", 0, <<>>)
 
+\* Evaluation results: "T", "F", "M" (error("missing")), "E" (another error value).
+\* The scanner keeps a value iff the result is "T" (zngio check()).
+T3(b) == IF b THEN "T" ELSE "F"
 \* searchString.Eval: searchType(val.Type()) or, over Walk, searchType(node type) or a
 \* string node containing the term
-EvalSearch(v) == TypeHasName(v) \/ \E nd \in Nodes(v) : TypeHasName(nd) \/ (nd.k = "str" /\ MatchS(nd.s))
-\* expr.filter + Comparison("==", "foo"): the operand must be a string (possibly named)
-EvalEqk(v) == LET x == Under(Field(v, "k")) IN x.k = "str" /\ ExactS(x.s)
-EvalEq1(v) == LET x == Under(Field(v, "k")) IN x.k = "int" /\ x.n = 1
-\* In.Eval: coerce.Equal(elem, node) for every node of the container's walk (root included)
-EvalIn(x) == x.k # "missing" /\ \E nd \in Nodes(x) : nd.k = "str" /\ ExactS(nd.s)
-\* grep(/fo+x/): matches string values only; value "xFOOx" does not match (case-sensitive), none does here
-EvalGlob(v) == FALSE
+EvalSearch(v) == T3(TypeHasName(v) \/ \E nd \in Nodes(v) : TypeHasName(nd) \/ (nd.k = "str" /\ MatchS(nd.s)))
+\* expr.filter + Comparison("==", literal): an error operand is returned as is; otherwise the
+\* operand must be a string (possibly of a named type) / an int
+OperandErr(x) == IF x.k = "missing" THEN "M" ELSE IF Under(x).k = "err" THEN "E" ELSE ""
+EvalEqk(v) == LET x == Field(v, "k") IN
+              IF OperandErr(x) # "" THEN OperandErr(x) ELSE T3(Under(x).k = "str" /\ ExactS(Under(x).s))
+EvalEq1(v) == LET x == Field(v, "k") IN
+              IF OperandErr(x) # "" THEN OperandErr(x) ELSE T3(Under(x).k = "int" /\ Under(x).n = 1)
+\* In.Eval: an error container (missing included) is returned as is; otherwise
+\* coerce.Equal(elem, node) for every node of the container's walk (root included)
+EvalIn(x) == IF OperandErr(x) # "" THEN OperandErr(x)
+             ELSE T3(\E nd \in Nodes(x) : nd.k = "str" /\ ExactS(nd.s))
+\* grep(/fo+x/): matches string values only, case-sensitively; no value here matches
+EvalGlob(v) == "F"
 
-RECURSIVE Eval(_, _)
-Eval(p, v) ==
+\* expr.Not / And / Or (eval.go): a non-boolean operand is returned as is, except that
+\* Or moves on to its right operand when the left one is false or missing
+RECURSIVE Eval3(_, _)
+Eval3(p, v) ==
   CASE p.op = "atom" ->
          (CASE p.a = "search" -> EvalSearch(v)
             [] p.a = "eqk" -> EvalEqk(v)
@@ -136,9 +147,12 @@ Eval(p, v) ==
             [] p.a = "inthis" -> EvalIn(v)
             [] p.a = "eq1" -> EvalEq1(v)
             [] p.a = "glob" -> EvalGlob(v))
-    [] p.op = "not" -> ~Eval(p.l[1], v)
-    [] p.op = "and" -> Eval(p.l[1], v) /\ Eval(p.r[1], v)
-    [] p.op = "or" -> Eval(p.l[1], v) \/ Eval(p.r[1], v)
+    [] p.op = "not" -> LET x == Eval3(p.l[1], v) IN IF x = "T" THEN "F" ELSE IF x = "F" THEN "T" ELSE x
+    [] p.op = "and" -> LET l == Eval3(p.l[1], v) IN
+                       IF l # "T" THEN l ELSE Eval3(p.r[1], v)
+    [] p.op = "or" -> LET l == Eval3(p.l[1], v) IN
+                      IF l = "T" \/ l = "E" THEN l ELSE Eval3(p.r[1], v)
+Eval(p, v) == Eval3(p, v) = "T"
 
 \* ------------------------------------------------------- the buffer filter
 \* "nil" (no filter: every frame is decoded), "T", "F"
